@@ -12,6 +12,14 @@ a fork per prompt.  Compared with the Lean model `Clikit.Question`
 (driver entries `c18.*`): outcome (value / exception class / pending), `read_line` calls, error
 lines printed, prompts printed.
 
+Sessions (`"kind": "session"`): SEVERAL questions (choice / confirmation) asked one after the other on ONE
+`BufferedIO`, whose input script is typed incrementally through the public API - `append_input` /
+`set_input` / `clear_input` of the I/O (or `append` / `set` / `clear` of its `StringInputStream`) between the
+questions, or "lazily" during a question (the stream appends the next chunk when a read finds it empty, as a
+user typing on).  Compared with the Lean model `Question.session` (entry `c18.session`): per question the
+outcome, reads, errors and prompts; the oracle demands of every question what the statement says, on the lines
+that are unread when it is asked.
+
 SAFETY: before the repair D22 the retry loop swallowed every `Exception` (the "Aborted" at end of
 input, even a TimeoutError raised by a signal handler) and span for ever.  Every dialogue here is
 bounded three times by `BaseException` subclasses the loop cannot swallow: a read budget in the
@@ -49,11 +57,17 @@ REQUIRED_THEOREMS = ["Clikit.Props.C18." + t for t in (
     "terminates_at_eof", "unlimited_all_invalid_aborts", "all_invalid_waits", "prompt_failure", "ask_outcome_cases",
     "fuel_suffices", "never_out_of_fuel", "pre_repair_loop_never_terminates",
     "noninteractive", "confirm_iff", "confirm_eof", "matchYes_iff",
+    "session_consumes", "session_reads_bound", "question_ignores_later_lines", "session_append_commutes",
+    "session_set_forgets",
     "hyps_decide", "index_value_interchangeable_ask_pyInt", "index_value_interchangeable_multi_pyInt",
     "index_value_interchangeable_multi_ask", "interchange_dec", "ask_outcome_cases_dec")]
 RULE = ("ask: choice lists (1-5 entries: plain, numeric-looking, duplicated, spaced, case-differing) x single/multi x "
         "defaults x limits {None,0,1,2,3} x ALL scripts up to 3 lines (quick) / 4 lines (thorough, limit None|3) over a "
         "14-answer adversarial alphabet x {end of input, blocking stream} + random longer dialogues over a wider alphabet; "
+        "session: two or three questions in sequence on one BufferedIO, the script extended between them (append_input / "
+        "StringInputStream.append), replaced or dropped (set_input, clear_input), or typed lazily during a question - every "
+        "assignment of a 4-answer alphabet to three lines x attempt limits {None,1,2}^2 x five session shapes x end of "
+        "input / blocking, and a quarter of the random stream (1-4 questions incl. confirmations, 0-3 lines per chunk); "
         "interchange: every (list, index) pair; confirm: patterns x defaults x answers x eof x interactive; validate/int/"
         "spaces/ci: the validator, int(), the white-space and digit classes and (?i) letter matching directly, on all code points. A case is non-trivial when it is interactive "
         "and at least one line is read; distinct = distinct (question, consumed script prefix, outcome)")
@@ -65,7 +79,8 @@ TRUSTED_BASE = [
     "interpreter on all 0x110000 code points",
     "tools/genparts/c18.py: ast extraction of the regexes, the range test, the lookup order and the position of the read "
     "relative to the retry loop's try (pinned by `example`s in the model file)",
-    "harness/props/c18.py: budgeted StringInputStream/BufferedOutputStream subclasses, counting of error lines by the "
+    "harness/props/c18.py: budgeted StringInputStream/BufferedOutputStream subclasses (for sessions: the stream itself "
+    "decides 'end of input' - the harness does not count lines - and appends the lazily typed chunks through the public append()), counting of error lines by the "
     "SGR prefix of the <error> style, the oracle's reading of 'valid entry'",
     "CPython 3.12 re, int(), bytes.strip(), str.strip(); subprocess failing to find `stty` on an empty PATH",
 ]
@@ -78,6 +93,8 @@ ASSUMPTIONS = [
     "'an index and the value it denotes are interchangeable' is demanded (oracle) and proved (theorems) for values that can be "
     "typed: the line read is stripped, and a multi-select answer loses every blank and is split at commas, so a choice with "
     "surrounding blanks (or, in multi-select, one that is not [a-zA-Z0-9_-]+) can only be selected by its index",
+    "sessions: the input is a StringInputStream driven through its public append/set/clear (BufferedIO.append_input/"
+    "set_input/clear_input); a dialogue that is left waiting for input (blocking stream) has consumed the lines it read",
     "the formatter is pastel's default style set (the <error> style has a distinctive SGR prefix); answers contain no style tags",
 ]
 BUDGET_S = {"quick": 70, "thorough": 780}
@@ -137,13 +154,44 @@ def _classes():
                 raise Budget("write budget")
             return super(BudgetedOutput, self).write(string)
 
+    class SessionInput(StringInputStream):
+        """the input of a session: the script is extended through the PUBLIC append()/set()/clear() of the stream;
+        whether a read meets the end is decided by the stream itself (no line counting here).  `lazy`: chunks
+        typed only when a read finds the stream empty (a user typing on during a question)."""
+
+        def __init__(self, lines, lazy, eof, budget):
+            super(SessionInput, self).__init__(_text(lines))
+            self.lazy = [list(c) for c in lazy]
+            self.eof = eof
+            self.budget = budget
+            self.reads = 0
+
+        def read_line(self, length=None):
+            if self.reads >= self.budget:
+                raise Budget("read budget")
+            line = super(SessionInput, self).read_line(length)
+            while line == "" and self.lazy:
+                self.append(_text(self.lazy.pop(0)))
+                line = super(SessionInput, self).read_line(length)
+            if line == "" and not self.eof:
+                raise NeedMoreInput()
+            self.reads += 1
+            return line
+
+        def read(self, length):
+            raise Budget("character read: the stty path was taken")
+
     from clikit.formatter import AnsiFormatter
     fmt = AnsiFormatter(forced=True)
-    _CL.update(BudgetedInput=BudgetedInput, BudgetedOutput=BudgetedOutput, fmt=fmt,
+    _CL.update(BudgetedInput=BudgetedInput, BudgetedOutput=BudgetedOutput, SessionInput=SessionInput, fmt=fmt,
                err_open=fmt.format("<error>x</error>").split("x")[0])
     if not _CL["err_open"].startswith("\x1b["):
         raise RuntimeError("the <error> style has no SGR prefix")
     return _CL
+
+
+def _text(lines):
+    return "".join(l + "\n" for l in lines)
 
 
 def _alarm(signum, frame):
@@ -221,6 +269,70 @@ def _dialogue(make_question, script, eof, interactive, nchoices=1, probe=False):
     stderr = err.fetch()
     return {"result": result, "reads": inp.reads, "errors": stderr.count(cl["err_open"]),
             "prompts": stderr.count(QMARK), "stdout": len(out.fetch()), "stderr": len(stderr)}
+
+
+def _session_question(q):
+    if q["type"] == "confirm":
+        return _confirm_question(q)
+    return _choice_question(q)
+
+
+def _session(case):
+    """several questions in sequence on ONE BufferedIO; the script is extended / replaced / dropped between the
+    questions through the public API, or typed lazily during a question; never hangs, never raises"""
+    cl = _classes()
+    from clikit.io.buffered_io import BufferedIO
+    fmt = cl["fmt"]
+    asks = [st[1] for st in case["steps"] if st[0] == "ask"]
+    nlines = len(case["initial"]) + sum(len(st[1]) for st in case["steps"] if st[0] in ("append", "set")) + \
+        sum(len(c) for c in case.get("lazy", []))
+    budget = nlines + len(asks) + 2
+    io = BufferedIO("", fmt)
+    inp = cl["SessionInput"](case["initial"], case.get("lazy", []), case["eof"], budget)
+    out = cl["BudgetedOutput"](50)
+    err = cl["BudgetedOutput"](50 + (budget + 2 * len(asks) + 2) * (max([len(q.get("choices", [])) for q in asks] + [1]) + 8))
+    io.input.set_stream(inp)
+    io.output.set_stream(out)
+    io.error_output.set_stream(err)
+    io.set_interactive(case["interactive"])
+    via_io = case.get("via", "io") == "io"
+    res = []
+    with _Bounded(bool(case.get("probe"))):
+        for st in case["steps"]:
+            try:
+                if st[0] == "append":
+                    (io.append_input if via_io else io.input.stream.append)(_text(st[1]))
+                elif st[0] == "set":
+                    (io.set_input if via_io else io.input.stream.set)(_text(st[1]))
+                elif st[0] == "clear":
+                    (io.clear_input if via_io else io.input.stream.clear)()
+                elif st[0] == "ask":
+                    before = inp.reads
+                    out.clear()
+                    err.clear()
+                    try:
+                        q = _session_question(st[1])()
+                        result = {"value": _jsonable(q.ask(io.section() if st[1].get("section") else io))}
+                    except NeedMoreInput:
+                        result = {"pending": True}
+                    except Budget as e:
+                        result = {"nonterminating": "%s exceeded (%d reads allowed for %d lines, %d questions)" % (
+                            e, budget, nlines, len(asks))}
+                    except BaseException as e:  # noqa: B902 - the class is the observable
+                        result = {"err": type(e).__name__}
+                    stderr = err.fetch()
+                    res.append({"result": result, "reads": inp.reads - before, "errors": stderr.count(cl["err_open"]),
+                                "prompts": stderr.count(QMARK), "stdout": len(out.fetch()), "stderr": len(stderr)})
+                else:
+                    raise ValueError("unknown session step %r" % (st,))
+            except ValueError:
+                raise
+            except Budget as e:
+                res.append({"result": {"nonterminating": str(e)}, "reads": 0, "errors": 0, "prompts": 0, "stdout": 0, "stderr": 0})
+                break
+            except Exception as e:  # noqa: BLE001 - a failing input operation is an observation
+                res.append({"step_failed": [st[0], type(e).__name__]})
+    return {"asks": res}
 
 
 def _jsonable(v):
@@ -305,6 +417,8 @@ def run_impl(case):
             obs["result"]["value"] = _jsonable(obs["result"]["value"])
         obs["prompt_ok"] = _prompt_ok(_choice_question(case))
         return obs
+    if k == "session":
+        return _session(case)
     if k == "interchange":
         c = case["choices"]
         res = []
@@ -365,6 +479,27 @@ def model_requests(case):
         return [{"m": "c18.ask", "choices": case["choices"], "multi": case["multi"], "default": case["default"],
                  "limit": case["limit"], "script": case["script"], "eof": case["eof"],
                  "interactive": case["interactive"]}]
+    if k == "session":
+        if case.get("lazy") and any(st[0] != "ask" for st in case["steps"]):
+            raise ValueError("session: lazily typed chunks and explicit input operations are not combined")
+        steps = []
+        for st in case["steps"]:
+            if st[0] in ("append", "set"):
+                steps.append({"op": st[0], "lines": st[1]})
+            elif st[0] == "clear":
+                steps.append({"op": "clear"})
+            else:
+                q = st[1]
+                if q["type"] == "confirm":
+                    steps.append({"op": "ask", "q": {"type": "confirm", "ci": q["ci"], "prefixes": q["prefixes"],
+                                                     "default": q["default"]}})
+                else:
+                    steps.append({"op": "ask", "q": {"type": "choice", "choices": q["choices"], "multi": q["multi"],
+                                                     "default": q["default"], "limit": q["limit"]}})
+        # lines typed lazily (when a read finds the stream empty) are, for the questions, lines of the script
+        initial = list(case["initial"]) + [l for c in case.get("lazy", []) for l in c]
+        return [{"m": "c18.session", "initial": initial, "steps": steps, "eof": case["eof"],
+                 "interactive": case["interactive"]}]
     if k == "interchange":
         c = case["choices"]
         return [{"m": "c18.ask", "choices": c, "multi": case["multi"], "default": None, "limit": 1,
@@ -396,6 +531,16 @@ def model_obs(case, answers):
     k = case["kind"]
     if k == "ask":
         return _model_ask(answers[0])
+    if k == "session":
+        res = []
+        for a in answers[0]["asks"]:
+            r = a["result"]
+            if "default" in r:
+                r = {"value": r["default"]}
+            a = dict(a)
+            a["result"] = r
+            res.append(a)
+        return {"asks": res}
     if k == "interchange":
         return {"by_index": _model_ask(answers[0]), "by_value": _model_ask(answers[1]), "hyp": answers[2]}
     if k == "confirm":
@@ -415,6 +560,17 @@ def impl_view(case, obs):
     k = case["kind"]
     if k == "ask":
         return _view_ask(obs)
+    if k == "session":
+        qs = [st[1] for st in case["steps"] if st[0] == "ask"]
+        res = []
+        for i, o in enumerate(obs["asks"]):
+            if "step_failed" in o:
+                res.append(o)
+                continue
+            keys = ("result", "reads", "prompts") if (i < len(qs) and qs[i]["type"] == "confirm") else \
+                ("result", "reads", "errors", "prompts")
+            res.append({k2: o[k2] for k2 in keys})
+        return {"asks": res}
     if k == "interchange":
         return {"by_index": _view_ask(obs["by_index"]), "by_value": _view_ask(obs["by_value"]), "hyp": obs["hyp"]}
     if k == "confirm":
@@ -581,8 +737,40 @@ def _oracle_confirm(case, obs, plain=False):
     return None
 
 
+def _oracle_session(case, obs):
+    """every question of the session must behave as the statement says on the lines that are UNREAD when it is asked:
+    lines answered before are consumed (exactly one per entry), lines appended later stand behind the unread ones"""
+    unread = list(case["initial"]) + [l for c in case.get("lazy", []) for l in c]
+    asks = obs["asks"]
+    n = 0
+    for st in case["steps"]:
+        if n < len(asks) and "step_failed" in asks[n]:
+            return "the input operation %s failed with %s; %r" % (asks[n]["step_failed"][0], asks[n]["step_failed"][1], case)
+        if st[0] == "append":
+            unread = unread + list(st[1])
+        elif st[0] == "set":
+            unread = list(st[1])
+        elif st[0] == "clear":
+            unread = []
+        else:
+            if n >= len(asks):
+                return "question %d of the session was not asked; %r" % (n + 1, case)
+            o = asks[n]
+            n += 1
+            sub = dict(st[1])
+            sub.update(script=list(unread), eof=case["eof"], interactive=case["interactive"])
+            v = _oracle_confirm(sub, o) if st[1]["type"] == "confirm" else _oracle_ask(sub, o)
+            if v:
+                return "question %d of a session, asked when the unread lines of the input were %r: %s; session %r" % (
+                    n, unread, v, {k2: case[k2] for k2 in ("initial", "steps", "lazy", "via") if k2 in case})
+            unread = unread[min(o["reads"], len(unread)):]
+    return None
+
+
 def oracle(case, obs):
     k = case["kind"]
+    if k == "session":
+        return _oracle_session(case, obs)
     if k == "ask":
         return _oracle_ask(case, obs)
     if k == "interchange":
@@ -750,10 +938,92 @@ def _exhaustive(tier):
                             yield _ask(c, multi, None, limit, s, eof)
 
 
+SESSION_ALPHABET = ["", "zzz", "0", "a"]
+SESSION_LIMITS = [None, 1, 2]
+
+
+def _q(choices, limit, multi=False, default=None):
+    return {"type": "choice", "choices": list(choices), "multi": multi, "default": default, "limit": limit}
+
+
+def _session_case(initial, steps, eof, lazy=None, via="io", interactive=True, probe=False):
+    c = {"kind": "session", "initial": list(initial), "steps": steps, "eof": eof, "interactive": interactive, "via": via}
+    if lazy:
+        c["lazy"] = [list(x) for x in lazy]
+    if probe:
+        c["probe"] = True
+    return c
+
+
+def _sessions_fixed(tier):
+    """two or three questions in sequence on one I/O, three typed lines delivered in five ways"""
+    n = 0
+    confirm = {"type": "confirm", "ci": True, "prefixes": ["y"], "default": False}
+    for c in (LISTS_QUICK[0], LISTS_QUICK[1]) + ((LISTS_QUICK[3],) if tier == "thorough" else ()):
+        alpha = SESSION_ALPHABET if tier != "thorough" else SESSION_ALPHABET + ["1", " " + c[-1] + " "]
+        for l1, l2 in itertools.product(SESSION_LIMITS, repeat=2):
+            for x1, x2, x3 in itertools.product(alpha, repeat=3):
+                for eof in (True, False):
+                    q1, q2 = _q(c, l1), _q(c, l2)
+                    shapes = [
+                        ([x1], [["ask", q1], ["append", [x2, x3]], ["ask", q2]], None),
+                        ([x1, x2], [["ask", q1], ["append", [x3]], ["ask", q2]], None),
+                        ([x1], [["ask", q1], ["append", [x2]], ["ask", q2], ["append", [x3]], ["ask", confirm]], None),
+                        ([x1], [["ask", q1], ["ask", q2]], [[x2], [x3]]),
+                        ([x1, x2], [["ask", q1], ["set" if l2 is None else "clear"] + ([[x3]] if l2 is None else []),
+                                    ["append", [x3]], ["ask", q2]], None),
+                    ]
+                    for initial, steps, lazy in shapes:
+                        n += 1
+                        yield _session_case(initial, steps, eof, lazy, via="io" if n % 2 else "stream")
+
+
+def _random_session(rng):
+    n = rng.choice([1, 2, 2, 3, 3])
+    choices = [rng.choice(ENTRIES) for _ in range(n)]
+    alpha = alphabet(choices) + choices + [str(i) for i in range(n)] + ["y", "n", "yes", "zzz", "", "0"]
+
+    def lines(k):
+        return [rng.choice(alpha).replace("\n", "") for _ in range(k)]
+
+    def question():
+        if rng.random() < 0.25:
+            ci, pre = rng.choice([(True, ["y"]), (False, ["y", "j"]), (True, ["yes", "o"])])
+            q = {"type": "confirm", "ci": ci, "prefixes": pre, "default": rng.random() < 0.5}
+        else:
+            q = _q(choices, rng.choice([None, None, 1, 1, 2, 3]), rng.random() < 0.3,
+                   rng.choice([None, None, None, "0", str(rng.randrange(n))]))
+        if rng.random() < 0.15:
+            q["section"] = True      # asked through io.section(): the section shares the input
+        return q
+    nq = rng.choice([1, 2, 2, 3, 3, 4])
+    lazy = None
+    steps = []
+    if rng.random() < 0.25:
+        lazy = [lines(rng.choice([0, 1, 1, 2])) for _ in range(rng.choice([1, 2, 3]))]
+        steps = [["ask", question()] for _ in range(nq)]
+    else:
+        for i in range(nq):
+            r = rng.random()
+            if r < 0.6 or (i == 0 and r < 0.8):
+                steps.append(["append", lines(rng.choice([0, 1, 1, 2, 3]))])
+                if rng.random() < 0.2:
+                    steps.append(["append", lines(1)])
+            elif r < 0.7:
+                steps.append(["set", lines(rng.choice([0, 1, 2]))])
+            elif r < 0.77:
+                steps.append(["clear"])
+            steps.append(["ask", question()])
+    return _session_case(lines(rng.choice([0, 1, 1, 2, 3])), steps, rng.random() < 0.6, lazy,
+                         via=rng.choice(["io", "stream"]), interactive=rng.random() < 0.95, probe=rng.random() < 0.3)
+
+
 ENTRIES = ["a", "b", "c", "A", "B", " a", "a ", "a b", "0", "1", "2", "-1", "99", "1.0", "zzz", "a,b", "ab", "+1", "01", "é"]
 
 
 def _random_case(rng):
+    if rng.random() < 0.25:
+        return _random_session(rng)
     n = rng.choice([1, 2, 2, 3, 3, 3, 4, 5])
     choices = [rng.choice(ENTRIES) for _ in range(n)]
     alpha = alphabet(choices) + WIDE_ALPHABET + choices + [str(i) for i in range(n)]
@@ -778,6 +1048,8 @@ def _stream(tier, rng):
     for c in _fixed(tier):
         yield c
     for c in _exhaustive(tier):
+        yield c
+    for c in _sessions_fixed(tier):
         yield c
     for _ in range(300000 if tier == "thorough" else 20000):
         yield _random_case(rng)
@@ -812,6 +1084,10 @@ def _kind(res):
 
 def nontrivial_key(case, obs):
     k = case["kind"]
+    if k == "session":
+        if not case["interactive"] or not any(o.get("reads") for o in obs["asks"]):
+            return None
+        return ("session", repr((case["initial"], case["steps"], case.get("lazy"), case["eof"])))
     if k == "ask":
         if not case["interactive"] or obs["reads"] == 0:
             return None
@@ -832,6 +1108,11 @@ def nontrivial_key(case, obs):
 
 def bucket(case, obs):
     k = case["kind"]
+    if k == "session":
+        ops = sorted(set(st[0] for st in case["steps"] if st[0] != "ask"))
+        return "session:%s:questions=%d:%s" % (
+            "interactive" if case["interactive"] else "non-interactive", sum(1 for st in case["steps"] if st[0] == "ask"),
+            "lazy" if case.get("lazy") else ("+".join(ops) or "initial-only"))
     if k == "ask":
         if not case["interactive"]:
             return "ask:non-interactive"
@@ -846,8 +1127,78 @@ def bucket(case, obs):
 
 
 # --------------------------------------------------------------------------- search
+def _shrink_session(case):
+    steps = case["steps"]
+    for i in range(len(steps)):
+        c = dict(case)
+        c["steps"] = steps[:i] + steps[i + 1:]
+        yield c
+    if case.get("lazy"):
+        c = dict(case)
+        c["initial"] = case["initial"] + [l for ch in case["lazy"] for l in ch]
+        c.pop("lazy")
+        yield c
+    for i in range(len(case["initial"])):
+        c = dict(case)
+        c["initial"] = case["initial"][:i] + case["initial"][i + 1:]
+        yield c
+    for i, st in enumerate(steps):
+        if st[0] in ("append", "set"):
+            for j in range(len(st[1])):
+                c = dict(case)
+                c["steps"] = steps[:i] + [[st[0], st[1][:j] + st[1][j + 1:]]] + steps[i + 1:]
+                yield c
+        elif st[0] == "ask":
+            q = st[1]
+            for key, val in (("section", False), ("multi", False), ("default", None), ("limit", None)):
+                if key in q and q[key] != val and not (q["type"] == "confirm" and key == "default"):
+                    q2 = dict(q)
+                    q2[key] = val
+                    c = dict(case)
+                    c["steps"] = steps[:i] + [["ask", q2]] + steps[i + 1:]
+                    yield c
+    for key, val in (("probe", False), ("eof", True), ("interactive", True)):
+        if case.get(key, val) != val:
+            c = dict(case)
+            c[key] = val
+            yield c
+
+
+def _neighbours_session(case):
+    steps = case["steps"]
+    for via in ("io", "stream"):
+        if case.get("via", "io") != via:
+            c = dict(case)
+            c["via"] = via
+            yield c
+    for a in SESSION_ALPHABET + ["1", "y"]:
+        for i in range(len(case["initial"]) + 1):
+            c = dict(case)
+            c["initial"] = case["initial"][:i] + [a] + case["initial"][i + 1:]
+            c["interactive"] = True
+            yield c
+        for i, st in enumerate(steps):
+            if st[0] in ("append", "set"):
+                for j in range(len(st[1]) + 1):
+                    c = dict(case)
+                    c["steps"] = steps[:i] + [[st[0], st[1][:j] + [a] + st[1][j + 1:]]] + steps[i + 1:]
+                    yield c
+    for i in range(len(steps) + 1):
+        if not case.get("lazy"):
+            c = dict(case)
+            c["steps"] = steps[:i] + [["append", ["0"]]] + steps[i:]
+            yield c
+        c = dict(case)
+        c["steps"] = steps[:i] + [["ask", _q(["a", "b", "c"], 1)]] + steps[i:]
+        yield c
+
+
 def shrink(case):
     k = case["kind"]
+    if k == "session":
+        for c in _shrink_session(case):
+            yield c
+        return
     if k not in ("ask", "confirm", "plain"):
         return
     script = case["script"]
@@ -878,6 +1229,10 @@ def shrink(case):
 
 def neighbours(case):
     k = case["kind"]
+    if k == "session":
+        for c in _neighbours_session(case):
+            yield c
+        return
     if k != "ask":
         if k in ("confirm", "plain"):
             for a in ("", "y", "n", "Y", "x"):
